@@ -95,6 +95,93 @@ pub fn run_itera<T: L, I: Iterator<Item = T>>(mut it: I, a: usize, kind: &str, b
     })
 }
 
+/// the provided methods of `Iterator` on any iterator of the crate (`Cube::all`, `Ecube::all`): `a`
+/// plain calls of `next`, one adaptor, one more `next` (seed C13-k: a hand-written iterator whose
+/// `nth` is wrong after an odd number of items)
+pub fn run_alla<T: Ord, I: Iterator<Item = T>>(mut it: I, a: usize, kind: &str, b: usize, show1: &dyn Fn(&T) -> String) -> Option<String> {
+    for _ in 0..a {
+        it.next();
+    }
+    let show = |o: Option<T>| match o {
+        Some(l) => show1(&l),
+        None => "none".to_string(),
+    };
+    Some(match kind {
+        "nth" => {
+            let r = it.nth(b);
+            let r2 = it.next();
+            format!("ok {} {}", show(r), show(r2))
+        }
+        "skip" => {
+            let mut s = it.skip(b);
+            let r = s.next();
+            let r2 = s.next();
+            format!("ok {} {}", show(r), show(r2))
+        }
+        "stepby" => {
+            if b == 0 {
+                return None;
+            }
+            let mut s = it.step_by(b);
+            let v: Vec<String> = (0..5).map(|_| show(s.next())).collect();
+            format!("ok {}", v.join(" "))
+        }
+        "count" => {
+            let c = it.by_ref().count();
+            format!("ok {} {}", c, show(it.next()))
+        }
+        "last" => {
+            let r = it.by_ref().last();
+            format!("ok {} {}", show(r), show(it.next()))
+        }
+        "max" => {
+            let r = it.by_ref().max();
+            format!("ok {} {}", show(r), show(it.next()))
+        }
+        "min" => {
+            let r = it.by_ref().min();
+            format!("ok {} {}", show(r), show(it.next()))
+        }
+        "hint" => {
+            let (lo, hi) = it.size_hint();
+            let c = it.count();
+            format!("ok {}", show_bool(lo <= c && hi.map_or(true, |h| c <= h)))
+        }
+        _ => return None,
+    })
+}
+
+/// what the adaptor must return, from the items that plain `next()` yields (`all`)
+pub fn alla_expected<T: Ord + Clone>(all: &[T], a: usize, kind: &str, b: usize, show1: &dyn Fn(&T) -> String) -> Option<String> {
+    let show = |o: Option<&T>| o.map_or("none".to_string(), |x| show1(x));
+    let at = |p: usize| all.get(p);
+    let left = all.len().saturating_sub(a);
+    Some(match kind {
+        "nth" | "skip" => {
+            let r = at(a + b);
+            let r2 = if r.is_some() { at(a + b + 1) } else { None };
+            format!("ok {} {}", show(r), show(r2))
+        }
+        "stepby" => {
+            let mut v = Vec::new();
+            let mut dead = false;
+            for k in 0..5usize {
+                let r = if dead { None } else { at(a + k * b) };
+                dead = r.is_none();
+                v.push(show(r));
+            }
+            format!("ok {}", v.join(" "))
+        }
+        "count" => format!("ok {} none", left),
+        "last" => format!("ok {} none", show(if left > 0 { all.last() } else { None })),
+        // `max` returns the last of the greatest elements, `min` the first of the least
+        "max" => format!("ok {} none", show(all.iter().skip(a).max())),
+        "min" => format!("ok {} none", show(all.iter().skip(a).min())),
+        "hint" => "ok 1".to_string(),
+        _ => return None,
+    })
+}
+
 fn us(s: &str) -> Option<usize> {
     s.parse().ok()
 }
@@ -642,6 +729,8 @@ fn run_sop_ops(t: &[&str]) -> Option<String> {
             }
             format!("ok {} {:x}", cnt, h)
         }
+        ("cube", "alla", 6) => run_alla(Cube::all(us(t[2])?), us(t[3])?, t[4], us(t[5])?, &|c: &Cube| show_cube(c))?,
+        ("ecube", "alla", 6) => run_alla(Ecube::all(us(t[2])?), us(t[3])?, t[4], us(t[5])?, &|c: &Ecube| show_ecube(c))?,
         ("cube", "display", 3) => format!("ok {}", show_bytes(parse_cube(t[2])?.to_string().as_bytes())),
         ("cube", "nthvar", 4) => {
             let v = us(t[2])?;
